@@ -61,6 +61,9 @@ def fam_props(mm):
         {"name": "zn", "type": ref("ZzNum"), "optional": True},
         {"name": "multiNull", "type": {"kind": "or", "items": [STR, INT, NULL]}},
         {"name": "multiNullOpt", "type": {"kind": "or", "items": [ref("Position"), ref("Range"), NULL]}, "optional": True},
+        # null-admitting types BELOW the top level of a property type (array element, map value)
+        {"name": "nullElems", "type": {"kind": "array", "element": {"kind": "or", "items": [STR, NULL]}}},
+        {"name": "nullVals", "type": {"kind": "map", "key": STR, "value": {"kind": "or", "items": [ref("Range"), NULL]}}, "optional": True},
     ]})
     return m
 
